@@ -27,7 +27,8 @@ Whos(k) == {"own", "other"} \cup (IF IsMulti(k) THEN {"ms_missing", "ms_swapped"
 PkSrcs == {"sig_signer",   \* in the signature: the public key of whoever signed
            "sig_own",      \* in the signature: the declared signer's own public key
            "state",        \* not in the signature: looked up from the signer's account
-           "state_nokey"}  \* not in the signature, and the signer's account has no public key
+           "state_nokey",  \* not in the signature, and the signer's account has no public key
+           "state_foreign"} \* not in the signature; the signer's account (e.g. from a genesis file) carries ANOTHER key
 Muts == {"none", "chain", "msg", "fee", "memo", "entropy", "sig"}
 
 \* fx: the fee is the stake denomination only ("plain"), or carries an additional coin of another
@@ -52,6 +53,7 @@ PkUsed(c) == CASE c.pksrc = "sig_signer" -> (IF c.who = "other" THEN "attacker" 
                [] c.pksrc = "sig_own" -> "own"
                [] c.pksrc = "state" -> "own"
                [] c.pksrc = "state_nokey" -> "none"
+               [] c.pksrc = "state_foreign" -> "attacker"
 
 \* does the signature verify under PkUsed over the submitted bytes?
 Verifies(c) ==
